@@ -253,6 +253,7 @@ func runCanaries(id string, seed int) {
 	for _, d := range dirs {
 		var meta struct {
 			Property string `json:"property"`
+			Expected string `json:"expected"` // "missed": a documented limit of the claim, not a regression
 		}
 		data, err := os.ReadFile(filepath.Join(d, "meta.json"))
 		if err != nil || json.Unmarshal(data, &meta) != nil || meta.Property != id {
@@ -279,6 +280,9 @@ func runCanaries(id string, seed int) {
 		status := "caught"
 		if code != 1 || n == 0 {
 			status = "MISSED"
+			if meta.Expected == "missed" {
+				status = "known-miss (documented limit of the claim)"
+			}
 		}
 		fmt.Printf("CANARY %s %s (%d violation line(s) on the mutated view)\n", name, status, n)
 		report = append(report, map[string]interface{}{"seeded": name, "status": status, "violation_lines": n})
@@ -363,7 +367,7 @@ func (w *World) checkProperty(id, tier string, seed int, t0 time.Time, writeEvid
 	if tier != "thorough" {
 		var keep []*Obligation
 		for _, o := range pr.obls {
-			if strings.HasSuffix(base[o.Name], ":slow") {
+			if strings.HasSuffix(base[o.Name], ":slow") || strings.HasSuffix(base[o.Name], ":undecided") {
 				slowSkipped = append(slowSkipped, o.Name)
 				continue
 			}
@@ -420,6 +424,10 @@ func (w *World) checkProperty(id, tier string, seed int, t0 time.Time, writeEvid
 		}
 		o := r.Obl
 		_, inBase := base[o.Name]
+		knownUndecided := strings.HasSuffix(base[o.Name], ":undecided")
+		if knownUndecided {
+			inBase = false
+		}
 		if o.Kind == "cover" {
 			if r.Status != "cover-ok" {
 				if inBase {
@@ -490,9 +498,17 @@ func (w *World) checkProperty(id, tier string, seed int, t0 time.Time, writeEvid
 			continue
 		}
 		if r.Status == "refuted" || r.Status == "refuted-candidate" {
-			// new obligation (or never proved): a violation only if it replays
+			// new obligation (or never proved): a violation if it replays ...
 			if w.replayReproduces(id, r) {
 				report(r, "new obligation refuted and counterexample reproduced")
+				continue
+			}
+			// ... or if it is a safety obligation (panic / allocation) that did not
+			// exist on the baseline tree, in a function all of whose obligations
+			// were discharged there: the no-panic claim for that function no
+			// longer has a proof, and the solver has a (quantifier-free) candidate
+			if !knownUndecided && safetyKind(o.Kind) && funcInBaseline(base, o.Func, w.ModPath) {
+				report(r, "new "+o.Kind+" obligation in a function under contract is not provable ("+r.Status+": "+trunc(r.Reason, 160)+")")
 				continue
 			}
 		}
@@ -505,7 +521,7 @@ func (w *World) checkProperty(id, tier string, seed int, t0 time.Time, writeEvid
 	// baseline obligations that were not generated at all
 	var missing []string
 	for name, kind := range base {
-		if _, ok := byName[name]; !ok && contractLevel(strings.TrimSuffix(kind, ":slow")) {
+		if _, ok := byName[name]; !ok && !strings.HasSuffix(kind, ":undecided") && contractLevel(strings.TrimSuffix(kind, ":slow")) {
 			missing = append(missing, name)
 		}
 	}
@@ -580,6 +596,25 @@ func (w *World) checkProperty(id, tier string, seed int, t0 time.Time, writeEvid
 		return 2
 	}
 	return 0
+}
+
+func safetyKind(k string) bool {
+	switch k {
+	case "bounds", "nil", "div", "alloc", "unreachable", "typeassert", "conv":
+		return true
+	}
+	return false
+}
+
+// funcInBaseline: some obligation of fn is claimed (proved) in the baseline.
+func funcInBaseline(base map[string]string, fn, modPath string) bool {
+	short := strings.TrimPrefix(fn, modPath+"/go/")
+	for name, kind := range base {
+		if strings.HasPrefix(name, short+"#") && !strings.HasSuffix(kind, ":undecided") {
+			return true
+		}
+	}
+	return false
 }
 
 func dedup(in []string) []string {
@@ -698,8 +733,13 @@ func cmdBaseline(args []string) {
 					if i == 0 {
 						fmt.Printf("slow (thorough only): %s %.1fs\n", r2.Obl.Name, r2.TimeS)
 					}
-				} else if i == 0 {
-					fmt.Printf("not claimed: %s %s %.1fs %s\n", r2.Status, r2.Obl.Name, r2.TimeS, trunc(r2.Reason, 200))
+				} else {
+					// recorded as undecided on the baseline tree: never claimed, never an
+					// alarm; lets the check tell it from an obligation that is new
+					set[r2.Obl.Name] = r2.Obl.Kind + ":undecided"
+					if i == 0 {
+						fmt.Printf("not claimed: %s %s %.1fs %s\n", r2.Status, r2.Obl.Name, r2.TimeS, trunc(r2.Reason, 200))
+					}
 				}
 			}
 			sets = append(sets, set)
